@@ -89,6 +89,10 @@ func checkOwnerLaws(c *Ctx, owner vocab.IRI, cls string, name vocab.CollectionPa
 	fail := func(law, what string) {
 		c.Fail(fmt.Sprintf("col|%s|%s", law, cls), fmt.Sprintf("%s: %s", label, what), map[string]any{"owner": owner, "name": name, "built": built})
 	}
+	// independent construction: the owner's path with the collection name as one more segment
+	if model := vocab.IRI(strings.TrimRight(string(owner), "/") + "/" + string(name)); !equivIRI(built, model) {
+		fail("built-form", fmt.Sprintf("IRIf(%q, %s) = %q, not equivalent to %q", owner, name, built, model))
+	}
 	if !strings.EqualFold(string(sc), string(name)) {
 		fail("split-name", fmt.Sprintf("Split(%q) returned collection %q", built, sc))
 	}
@@ -210,7 +214,9 @@ func checkHelper(c *Ctx, actor bool, owner vocab.IRI, mask int, valueForm bool) 
 		}
 		before := map[string]any{}
 		for i := 0; i < v.NumField(); i++ {
-			before[v.Type().Field(i).Name] = v.Field(i).Interface()
+			if v.Type().Field(i).IsExported() {
+				before[v.Type().Field(i).Name] = v.Field(i).Interface()
+			}
 		}
 		var iri vocab.IRI
 		var status bool
@@ -225,6 +231,9 @@ func checkHelper(c *Ctx, actor bool, owner vocab.IRI, mask int, valueForm bool) 
 			c.Fail(fmt.Sprintf("col|addto-status|%s|%s", kind, n), fmt.Sprintf("%s: status=%v although the property was set=%v", label, status, was), map[string]any{"case": label})
 		}
 		for i := 0; i < v.NumField(); i++ {
+			if !v.Type().Field(i).IsExported() {
+				continue
+			}
 			name := v.Type().Field(i).Name
 			now := v.Field(i).Interface()
 			changed := !reflect.DeepEqual(before[name], now)
